@@ -178,6 +178,12 @@ func (x *Exec) zzverif(name string, c *CallCtx) Value {
 		return BoolV{B.Not(a[0].(BoolV).T)}
 	case "Implies":
 		return BoolV{B.Implies(a[0].(BoolV).T, a[1].(BoolV).T)}
+	case "Merged":
+		f, ok := unwrapIface(a[0]).(FuncV)
+		if !ok || f.Fn == nil {
+			x.Unsupported("Merged needs a function literal")
+		}
+		return x.mergeCall(f.Fn, nil, f.Bind)
 	case "Symbolic":
 		return BoolV{B.True}
 	case "StrEq":
